@@ -316,6 +316,34 @@ class Spec:
         self.recipe = case["recipe"]
         self.sig = case["sig"]
         self.extra = self.sig["params"][1:]
+        # evidence: which regions of the value space the conversions of this case went through
+        import collections
+        self.stats = collections.Counter()
+
+    @staticmethod
+    def falsy(value):
+        """Python treats the value as false although it is not None"""
+        if value is None:
+            return False
+        try:
+            return not value
+        except Exception:  # noqa: BLE001
+            return False
+
+    def real_coercer_needed(self, src_stack, dst_stack):
+        """the pair at the top of the stacks is converted by a real coercer (user coercer, model, iterable, dict,
+        Optional around one of those), not passed as is"""
+        s, d = src_stack[-1]["ty"], dst_stack[-1]["ty"]
+        if self.user_coercer(src_stack, dst_stack) is not None:
+            return True
+        if self.is_model(s) and self.is_model(d):
+            return True
+        if (s["t"], d["t"]) in (("iter", "iter"), ("dict", "dict")):
+            return True
+        if s["t"] == "opt" and d["t"] == "opt":
+            gp = lambda ty: {"kind": "gparam", "ty": ty, "pos": 0}  # noqa: E731
+            return self.real_coercer_needed(src_stack + [gp(s["a"])], dst_stack + [gp(d["a"])])
+        return False
 
     # -- predicates --------------------------------------------------------
     @staticmethod
@@ -435,22 +463,33 @@ class Spec:
         s, d = src_stack[-1]["ty"], dst_stack[-1]["ty"]
         f = self.user_coercer(src_stack, dst_stack)
         if f is not None:
+            self.stats["val-user-coercer:" + ("falsy-arg" if self.falsy(value) else "none-arg" if value is None
+                                              else "truthy-arg")] += 1
             return App(f, [value], [])
         if self.is_model(s) and self.is_model(d):
+            if self.falsy(value):
+                self.stats["val-model:falsy-instance"] += 1
             return self.convert_model(value, src_stack, dst_stack, pvals)
         gp = lambda ty, pos: {"kind": "gparam", "ty": ty, "pos": pos}  # noqa: E731
         if s["t"] == "iter" and d["t"] == "iter":
+            self.stats["val-iter:" + ("empty" if self.falsy(value) else "non-empty")] += 1
             factory = {"list": list, "tuple": tuple, "deque": __import__("collections").deque}[FACTORY_KIND[d["o"]]]
             return factory(self.coerce(x, src_stack + [gp(s["a"], 0)], dst_stack + [gp(d["a"], 0)], pvals)
                            for x in value)
         if s["t"] == "dict" and d["t"] == "dict":
+            self.stats["val-dict:" + ("empty" if self.falsy(value) else "non-empty")] += 1
             return {self.coerce(k, src_stack + [gp(s["k"], 0)], dst_stack + [gp(d["k"], 0)], pvals):
                     self.coerce(x, src_stack + [gp(s["v"], 1)], dst_stack + [gp(d["v"], 1)], pvals)
                     for k, x in value.items()}
         if s["t"] == "opt" and d["t"] == "opt":
+            inner = "coerced" if self.real_coercer_needed(src_stack, dst_stack) else "as-is"
+            what = "none" if value is None else "falsy" if self.falsy(value) else "truthy"
+            self.stats[f"val-optional-{inner}:{what}"] += 1
             if value is None:
                 return None
             return self.coerce(value, src_stack + [gp(s["a"], 0)], dst_stack + [gp(d["a"], 0)], pvals)
+        if self.falsy(value):
+            self.stats["val-as-is:falsy"] += 1
         return value      # passed as is
 
     def convert_model(self, data, src_stack, dst_stack, pvals):
